@@ -29,9 +29,10 @@ def scan_prop(pid, setn, extra_lib):
 def ev_prop(pid):
     return {
         'lib': LIB + ['Spec/Mods', 'Spec/Event', 'Check/EvImpl', 'Check/Ev'],
-        'syn': ['Props/%s' % pid], 'needs_syn': ['Syn/Ev', 'Check/Ev'],
+        'syn': ['Props/%s' % pid], 'needs_syn': ['Check/Ev'],
         'ext': ['Props/%s_ext' % pid], 'needs_ext': ['ExtI/Ev', 'Check/EvImpl'],
-        'corr': ['Corr/Ev'], 'needs_corr': ['Syn/Ev', 'ExtI/Ev'],
+        # the recording-layout instance of the generated decoder belongs to the correspondence with the tables
+        'corr': ['Corr/Ev', 'Props/%s_rec' % pid], 'needs_corr': ['Syn/Ev', 'ExtI/Ev'],
         'cex_ext': 'Cex/%s_ext' % pid, 'cex_syn': 'Cex/%s_syn' % pid,
         'replay_kind': 'evstep',
         'fallback_search': ('results' if pid == 'C14' else 'state'),
@@ -178,7 +179,7 @@ PROPS = {
     },
     'C08': {
         'lib': LIB + ['Check/Scan', 'Check/Ps2M', 'Check/Lay', 'Check/EvImpl', 'Check/C07', 'Check/C08'],
-        'syn': ['Props/C08'], 'needs_syn': ['Syn/Lay', 'Syn/Ps2', 'Syn/Set1', 'Syn/Set2', 'Syn/Ev', 'Check/C08'],
+        'syn': ['Props/C08'], 'needs_syn': ['Syn/Lay', 'Syn/Ps2', 'Syn/Set1', 'Syn/Set2', 'Check/C08'],
         'ext': ['Props/C08_ext'], 'needs_ext': ['ExtI/Lay', 'ExtI/Ps2', 'ExtI/Scan', 'ExtI/Ev', 'Check/C08'],
         'corr': ['Corr/Lay', 'Corr/Ps2Words', 'Corr/Ps2Bits', 'Corr/Set1', 'Corr/Set2', 'Corr/Ev'], 'needs_corr': [],
         'cex_ext': [('Cex/C08_ext', 'layout'), ('Cex/C08w_ext', 'word'), ('Cex/C07_set1_ext', 'bytesN'), ('Cex/C07_set2_ext', 'bytesN'),
